@@ -21,8 +21,8 @@ struct Plan {
     w1_large: u64,
     large_len: usize,
     w2_n: usize,
-    /// (slots, cycles, with_subtrees)
-    w3: Vec<(usize, u64, bool)>,
+    /// (slots, cycles, mode: 0 plain, 1 subtree bursts, 2 rotating fresh companions)
+    w3: Vec<(usize, u64, u8)>,
     c13: u64,
 }
 
@@ -44,17 +44,17 @@ fn plan(prop: &str, tier: &str, scale: f64) -> Plan {
             p.w1_large /= 2;
             p.w2_n = 0;
             p.w3 = if thorough {
-                vec![(1, 200_000, false), (2, 140_000, false), (4, 300_000, true), (7, 500_000, true), (3, 70_000, false)]
+                vec![(1, 200_000, 0), (2, 140_000, 0), (4, 300_000, 1), (7, 500_000, 1), (3, 70_000, 0), (1, 80_000, 2)]
             } else {
-                vec![(1, 70_000, false), (4, 140_000, true), (2, 70_000, false)]
+                vec![(1, 70_000, 0), (4, 140_000, 1), (2, 70_000, 0), (1, 36_000, 2)]
             };
         }
         "C07" => {
             p.w2_n = if thorough { 7 } else { 6 };
             p.w3 = if thorough {
-                vec![(1, 70_000, false), (4, 280_000, true), (5, 200_000, false)]
+                vec![(1, 70_000, 0), (4, 280_000, 1), (5, 200_000, 0), (1, 70_000, 2), (2, 140_000, 2)]
             } else {
-                vec![(1, 40_000, false), (3, 100_000, true)]
+                vec![(1, 40_000, 0), (3, 100_000, 1), (1, 36_000, 2)]
             };
         }
         "C09" | "C10" | "C14" => {
@@ -123,7 +123,7 @@ fn gen_cfg(prop: &str, size: Size) -> GenCfg {
 enum Item {
     W1(Size, u64),
     W2(usize, bool, Variant),
-    W3(usize, u64, bool),
+    W3(usize, u64, u8),
     C13(u64),
 }
 
@@ -234,7 +234,7 @@ fn main() {
             let parts: Vec<&str> = w.split(|c| c == '-' || c == '@').collect();
             let slots: usize = parts.get(1).and_then(|s| s.trim_end_matches("slots").parse().ok()).unwrap_or(1);
             let cycles: u64 = parts.get(2).and_then(|s| s.trim_end_matches("cycles").parse().ok()).unwrap_or(70_000);
-            let sub = w.contains("-subtree");
+            let sub: u8 = if w.contains("-subtree") { 1 } else if w.contains("-companions") { 2 } else { 0 };
             let rseed = meta.get("seed").and_then(|s| s.parse().ok()).unwrap_or(seed);
             let ctx = Ctx { seed: rseed, ..ctx.clone() };
             run_w3(&ctx, slots, cycles, sub, &mut cov)
@@ -265,7 +265,23 @@ fn main() {
     }
 
     // ------------------------------------------------------------ work items
-    let pl = plan(prop, &tier, scale);
+    let mut pl = plan(prop, &tier, scale);
+    // explicit overrides (sanitizer / Miri side-runs size their workloads separately)
+    if let Some(n) = arg(&args, "--small").and_then(|s| s.parse().ok()) {
+        pl.w1_small = n;
+    }
+    if let Some(n) = arg(&args, "--large").and_then(|s| s.parse().ok()) {
+        pl.w1_large = n;
+    }
+    if let Some(n) = arg(&args, "--w2n").and_then(|s| s.parse().ok()) {
+        pl.w2_n = n;
+    }
+    if let Some(n) = arg(&args, "--c13").and_then(|s| s.parse().ok()) {
+        pl.c13 = n;
+    }
+    if args.iter().any(|a| a == "--no-w3") {
+        pl.w3.clear();
+    }
     let mut items: Vec<Item> = Vec::new();
     let shapes = if pl.w2_n > 0 { w2_items(pl.w2_n) } else { Vec::new() };
     for (i, _) in shapes.iter().enumerate() {
